@@ -18,6 +18,11 @@ CallsAt(step) ==
   \cup {[op |-> "or_default_values"], [op |-> "or_default_values_many", n |-> 2]}
   \cup {[op |-> "values_from_panic", rows |-> <<Row(step, 1, a), Row(step, 2, b)>>] : a \in 1..2, b \in 1..2}
   \cup {[op |-> "values_from_panic", rows |-> <<>>], [op |-> "values_from_panic", rows |-> <<Row(step, 1, 0)>>]}
+  \* equal cells within a row, equal rows within a batch, a row that is one tuple expression, a wildcard select list
+  \cup {[op |-> "values", row |-> [j \in 1..m |-> IntV(7)]] : m \in 2..3}
+  \cup {[op |-> "values_from_panic", rows |-> <<Row(step, 1, 2), Row(step, 1, 2)>>]}
+  \cup {[op |-> "values", row |-> <<[k |-> "tuple", es |-> <<IntV(1), IntV(2)>>]>>]}
+  \cup {[op |-> "select_from", q |-> [kind |-> "select", width |-> 1, calls |-> <<[op |-> "column", n |-> "*"], [op |-> "from", t |-> <<"s">>]>>]]}
 
 VARIABLES st, hist, last
 vars == <<st, hist, last>>
